@@ -59,7 +59,7 @@ Section Stored.
   Lemma step_stored_inv s o : stored_inv s -> stored_inv (step s o).
   Proof.
     unfold stored_inv, Evidence.step. intros I.
-    destruct o as [key chain body|key est|key|chain tid|reg|v|chain body est sg|key]; cbn [Evidence.exec].
+    destruct o as [key chain body|key est|key|chain tid|reg|v|chain body est sg|key|]; cbn [Evidence.exec].
     - destruct (chain_tid (st_chains s) chain) as [tid|]; [|exact I].
       destruct (find_batch (st_batches s) key) as [b0|]; [exact I|].
       cbn. intros b [E|Hb]; [subst; now left | right; now apply I].
@@ -79,6 +79,7 @@ Section Stored.
       destruct (memz v (st_jailed s)); exact I.
     - destruct (find_batch (st_batches s) key) as [b0|]; [|exact I].
       cbn. intros b Hb. right. now apply I.
+    - cbn. intros b Hb. now apply in_map.
   Qed.
 
   Lemma run_from_stored_inv ops : forall s, stored_inv s -> stored_inv (run_from s ops).
@@ -127,10 +128,19 @@ Section Proofs.
   Lemma served_is_stored s b : served cp g s b = b_bts b.
   Proof. unfold served. now rewrite Hqueries. Qed.
 
-  Lemma step_archived_inv s o : stored_inv s -> archived_inv s -> archived_inv (step s o).
+  (** A genesis import keeps the invariant only if InitGenesis archives what it imports. *)
+  Definition genesis_ok (o : op) : Prop := c_genesis_archives_live g = true \/ o <> OGenesis.
+  Definition genesis_safe (ops : list op) : Prop := c_genesis_archives_live g = true \/ ~ In OGenesis ops.
+
+  Lemma genesis_safe_forall ops : genesis_safe ops -> Forall genesis_ok ops.
   Proof.
-    unfold archived_inv, Evidence.step. intros St I.
-    destruct o as [key chain body|key est|key|chain tid|reg|v|chain body est sg|key]; cbn [Evidence.exec].
+    intros [H|H]; apply Forall_forall; intros o Ho; [now left | right]. intros E. subst o. contradiction.
+  Qed.
+
+  Lemma step_archived_inv s o : genesis_ok o -> stored_inv s -> archived_inv s -> archived_inv (step s o).
+  Proof.
+    unfold archived_inv, Evidence.step. intros Gk St I.
+    destruct o as [key chain body|key est|key|chain tid|reg|v|chain body est sg|key|]; cbn [Evidence.exec].
     - destruct (chain_tid (st_chains s) chain) as [tid|]; [|exact I].
       destruct (find_batch (st_batches s) key); [exact I|].
       cbn. rewrite Hbuild. intros x [E|Hx]; [now left | right; now apply I].
@@ -150,26 +160,29 @@ Section Proofs.
     - destruct (find_batch (st_batches s) key) as [b|] eqn:F; [|exact I].
       cbn. rewrite served_is_stored. apply find_batch_in in F. destruct F as [F _].
       intros x [E|Hx]; [subst x; apply I; now apply St | now apply I].
+    - destruct Gk as [Gk|Gk]; [|contradiction]. cbn. rewrite Gk. apply incl_refl.
   Qed.
 
-  Lemma run_from_archived_inv ops : forall s, stored_inv s -> archived_inv s -> archived_inv (run_from s ops).
+  Lemma run_from_archived_inv ops : Forall genesis_ok ops -> forall s, stored_inv s -> archived_inv s -> archived_inv (run_from s ops).
   Proof.
-    induction ops as [|o r IH]; intros s St I; [exact I|].
+    induction 1 as [|o r Ho Hr IH]; intros s St I; [exact I|].
     cbn. apply IH; [now apply step_stored_inv | now apply step_archived_inv].
   Qed.
 
   Lemma init_archived_inv : archived_inv init.
   Proof. intros x []. Qed.
 
-  Theorem issued_incl_archive ops c : In c (st_issued (run ops)) -> In c (st_archive (run ops)).
-  Proof. apply (run_from_archived_inv ops init); [intros x [] | exact init_archived_inv]. Qed.
+  Theorem issued_incl_archive ops c : genesis_safe ops -> In c (st_issued (run ops)) -> In c (st_archive (run ops)).
+  Proof.
+    intros G. apply (run_from_archived_inv ops (genesis_safe_forall ops G) init); [intros x [] | exact init_archived_inv].
+  Qed.
 
   (** Whatever a batch query hands out for signing had been published (and archived) when the
       record was written: reading a query never asks for a signature over anything new. *)
-  Theorem query_serves_issued ops key c :
+  Theorem query_serves_issued ops key c : genesis_safe ops ->
     served_bts cp g (run ops) key = Some c -> In c (st_issued (run ops)) /\ In c (st_archive (run ops)).
   Proof.
-    unfold served_bts. destruct (find_batch (st_batches (run ops)) key) as [b|] eqn:F; [|discriminate].
+    intros G. unfold served_bts. destruct (find_batch (st_batches (run ops)) key) as [b|] eqn:F; [|discriminate].
     intros E. injection E as E. subst c. rewrite served_is_stored.
     apply find_batch_in in F. destruct F as [F _].
     assert (Hi : In (b_bts b) (st_issued (run ops))) by now apply (stored_bytes_to_sign_issued cp recover g).
@@ -189,12 +202,13 @@ Section Proofs2.
   Notation run := (run cp recover g).
   Notation op := (op Sig).
 
-  (** The archive and the ghost only grow. *)
-  Lemma step_monotone s o :
+  (** The archive and the ghosts only grow -- the archive and the running instance's ghost as long
+      as the chain is not restarted from an exported genesis, [st_ever] always. *)
+  Lemma step_monotone s o : o <> OGenesis ->
     incl (st_issued s) (st_issued (step s o)) /\ incl (st_archive s) (st_archive (step s o)).
   Proof.
-    unfold Evidence.step.
-    destruct o as [key chain body|key est|key|chain tid|reg|v|chain body est sg|key]; cbn [Evidence.exec].
+    intros NG. unfold Evidence.step.
+    destruct o as [key chain body|key est|key|chain tid|reg|v|chain body est sg|key|]; cbn [Evidence.exec].
     - destruct (chain_tid (st_chains s) chain) as [tid|]; [|split; apply incl_refl].
       destruct (find_batch (st_batches s) key); [split; apply incl_refl|].
       cbn. split; [apply incl_tl, incl_refl|].
@@ -215,14 +229,87 @@ Section Proofs2.
       destruct (memz v (st_jailed s)); split; apply incl_refl.
     - destruct (find_batch (st_batches s) key); [|split; apply incl_refl].
       cbn. split; [apply incl_tl|]; apply incl_refl.
+    - contradiction.
   Qed.
 
-  Theorem issued_and_archive_only_grow ops : forall s,
+  Theorem issued_and_archive_only_grow ops : ~ In OGenesis ops -> forall s,
     incl (st_issued s) (st_issued (run_from s ops)) /\ incl (st_archive s) (st_archive (run_from s ops)).
   Proof.
-    induction ops as [|o r IH]; intros s; [split; apply incl_refl|].
-    cbn. destruct (step_monotone s o) as [A B]. destruct (IH (step s o)) as [C D].
+    induction ops as [|o r IH]; intros NG s; [split; apply incl_refl|].
+    cbn. destruct (step_monotone s o) as [A B]; [intros E; apply NG; now left|].
+    destruct (IH (fun H => NG (or_intror H)) (step s o)) as [C D].
     split; eapply incl_tran; eassumption.
+  Qed.
+
+  Lemma step_ever_monotone s o : incl (st_ever s) (st_ever (step s o)).
+  Proof.
+    unfold Evidence.step.
+    destruct o as [key chain body|key est|key|chain tid|reg|v|chain body est sg|key|]; cbn [Evidence.exec].
+    - destruct (chain_tid (st_chains s) chain) as [tid|]; [|apply incl_refl].
+      destruct (find_batch (st_batches s) key); [apply incl_refl|]. cbn. apply incl_tl, incl_refl.
+    - destruct (find_batch (st_batches s) key) as [b0|]; [|apply incl_refl].
+      destruct (c_set_once g && (0 <? b_est b0)); [apply incl_refl|].
+      destruct (chain_tid (st_chains s) (b_chain b0)) as [tid|]; [|apply incl_refl]. cbn. apply incl_tl, incl_refl.
+    - destruct (find_batch (st_batches s) key); apply incl_refl.
+    - apply incl_refl.
+    - apply incl_refl.
+    - apply incl_refl.
+    - destruct (chain_tid (st_chains s) chain) as [tid|]; [|apply incl_refl].
+      destruct (c_rejects_archived g && memz _ (st_archive s)); [apply incl_refl|].
+      destruct (recover _ sg) as [a|]; [|apply incl_refl].
+      destruct (val_of_addr (st_reg s) chain a) as [v|]; [|apply incl_refl].
+      destruct (memz v (st_jailed s)); apply incl_refl.
+    - destruct (find_batch (st_batches s) key); [|apply incl_refl]. cbn. apply incl_tl, incl_refl.
+    - apply incl_refl.
+  Qed.
+
+  Theorem ever_only_grows ops : forall s, incl (st_ever s) (st_ever (run_from s ops)).
+  Proof.
+    induction ops as [|o r IH]; intros s; [apply incl_refl|].
+    cbn. eapply incl_tran; [apply step_ever_monotone | apply IH].
+  Qed.
+
+  (** What the running instance published, any instance published; and without a restart the two
+      ghosts are the same. *)
+  Lemma step_issued_incl_ever s o : incl (st_issued s) (st_ever s) ->
+    (forall b, In b (st_batches s) -> In (b_bts b) (st_ever s)) ->
+    incl (st_issued (step s o)) (st_ever (step s o)) /\
+    (forall b, In b (st_batches (step s o)) -> In (b_bts b) (st_ever (step s o))).
+  Proof.
+    unfold Evidence.step. intros I St.
+    destruct o as [key chain body|key est|key|chain tid|reg|v|chain body est sg|key|]; cbn [Evidence.exec].
+    - destruct (chain_tid (st_chains s) chain) as [tid|]; [|now split].
+      destruct (find_batch (st_batches s) key) as [b0|]; [now split|]. cbn. split.
+      + intros x [E|Hx]; [now left | right; now apply I].
+      + intros b [E|Hb]; [subst; now left | right; now apply St].
+    - destruct (find_batch (st_batches s) key) as [b0|]; [|now split].
+      destruct (c_set_once g && (0 <? b_est b0)); [now split|].
+      destruct (chain_tid (st_chains s) (b_chain b0)) as [tid|]; [|now split]. cbn. split.
+      + intros x [E|Hx]; [now left | right; now apply I].
+      + intros b [E|Hb]; [subst; now left | right; apply St; eapply remove_batch_in; eassumption].
+    - destruct (find_batch (st_batches s) key) as [b0|]; [|now split]. cbn. split; [exact I|].
+      intros b Hb. apply St. eapply remove_batch_in; eassumption.
+    - now split.
+    - now split.
+    - now split.
+    - destruct (chain_tid (st_chains s) chain) as [tid|]; [|now split].
+      destruct (c_rejects_archived g && memz _ (st_archive s)); [now split|].
+      destruct (recover _ sg) as [a|]; [|now split].
+      destruct (val_of_addr (st_reg s) chain a) as [v|]; [|now split].
+      destruct (memz v (st_jailed s)); now split.
+    - destruct (find_batch (st_batches s) key) as [b0|]; [|now split]. cbn. split.
+      + intros x [E|Hx]; [now left | right; now apply I].
+      + intros b Hb. right. now apply St.
+    - cbn. split; [|exact St]. intros x Hx. apply in_map_iff in Hx. destruct Hx as (b0 & E & Hb). subst x. now apply St.
+  Qed.
+
+  Theorem issued_incl_ever ops c : In c (st_issued (run ops)) -> In c (st_ever (run ops)).
+  Proof.
+    assert (G : forall s, incl (st_issued s) (st_ever s) -> (forall b, In b (st_batches s) -> In (b_bts b) (st_ever s)) ->
+                incl (st_issued (run_from s ops)) (st_ever (run_from s ops))).
+    { induction ops as [|o r IH]; intros s I St; [exact I|]. cbn.
+      destruct (step_issued_incl_ever s o I St) as [A B]. now apply IH. }
+    apply (G init); [intros x [] | intros b []].
   Qed.
 
   (** ** What an evidence message can do, in any state. *)
@@ -267,7 +354,7 @@ Section Proofs2.
     newly_jailed s (step s o) v -> exists chain body est sg, o = OEvidence chain body est sg.
   Proof.
     unfold newly_jailed, Evidence.step. intros [Hn Hj].
-    destruct o as [key chain body|key est|key|chain tid|reg|u|chain body est sg|key]; cbn [Evidence.exec] in Hj.
+    destruct o as [key chain body|key est|key|chain tid|reg|u|chain body est sg|key|]; cbn [Evidence.exec] in Hj.
     - destruct (chain_tid (st_chains s) chain); [|contradiction].
       destruct (find_batch (st_batches s) key); contradiction.
     - destruct (find_batch (st_batches s) key) as [b0|]; [|contradiction].
@@ -279,6 +366,7 @@ Section Proofs2.
     - cbn in Hj. apply filter_In in Hj. destruct Hj. contradiction.
     - now exists chain, body, est, sg.
     - destruct (find_batch (st_batches s) key); contradiction.
+    - contradiction.
   Qed.
 
   (** Every validator jailed at the end of a history was jailed by one specific evidence message. *)
@@ -322,33 +410,36 @@ Section Honest.
       as evidence with ANY subject on ANY chain, never jails a validator whose registered key is
       [k] -- unless that signature also recovers to [k]'s address under another checkpoint. *)
   Theorem honest_never_jailed ops chain body est k c v :
+    genesis_safe g ops ->
     In c (st_issued (run ops)) ->
     uses_only_key (run ops) chain v k ->
     newly_jailed (run ops) (step (run ops) (OEvidence chain body est (sign k c))) v ->
     exists m', c <> m' /\ recover m' (sign k c) = Some (addr_of k).
   Proof.
-    intros Hc Hk Hj.
+    intros G Hc Hk Hj.
     destruct (evidence_effect cp recover g _ _ _ _ _ _ Hj) as (tid & a & _ & Hna & Hr & Hv & _).
     specialize (Hna Hrejects).
     exists (cp tid body (eff_est est)). split.
     - intros E. apply Hna. rewrite <- E.
-      now apply (issued_incl_archive cp recover g Hbuild Hreissue Hqueries).
+      now apply (issued_incl_archive cp recover g Hbuild Hreissue Hqueries ops _ G).
     - apply val_of_addr_in in Hv. apply Hk in Hv. now subst a.
   Qed.
 
   Corollary honest_never_jailed_bb ops chain body est k c v :
+    genesis_safe g ops ->
     In c (st_issued (run ops)) ->
     uses_only_key (run ops) chain v k ->
     newly_jailed (run ops) (step (run ops) (OEvidence chain body est (sign k c))) v ->
     recover_binding_broken recover sign addr_of.
   Proof.
-    intros A B C. destruct (honest_never_jailed _ _ _ _ _ _ _ A B C) as (m' & N & R).
+    intros G A B C. destruct (honest_never_jailed _ _ _ _ _ _ _ G A B C) as (m' & N & R).
     now exists k, c, m'.
   Qed.
 
   (** Whoever is jailed by evidence is the first validator registered with the address the
       signature recovers to, and the checkpoint was never published by the chain. *)
   Theorem bad_sig_jails_registered_signer_of_unissued ops chain body est sg v :
+    genesis_safe g ops ->
     newly_jailed (run ops) (step (run ops) (OEvidence chain body est sg)) v ->
     exists tid a,
       chain_tid (st_chains (run ops)) chain = Some tid /\
@@ -357,11 +448,27 @@ Section Honest.
       recover (cp tid body (eff_est est)) sg = Some a /\
       val_of_addr (st_reg (run ops)) chain a = Some v /\ In (chain, v, a) (st_reg (run ops)).
   Proof.
-    intros Hj.
+    intros G Hj.
     destruct (evidence_effect cp recover g _ _ _ _ _ _ Hj) as (tid & a & Ht & Hna & Hr & Hv & _).
     specialize (Hna Hrejects). exists tid, a. repeat split; try assumption.
-    - intros Hi. apply Hna. now apply (issued_incl_archive cp recover g Hbuild Hreissue Hqueries).
+    - intros Hi. apply Hna. now apply (issued_incl_archive cp recover g Hbuild Hreissue Hqueries ops _ G).
     - now apply val_of_addr_in.
+  Qed.
+
+  (** The headline without any hypothesis about who registered what: a signature over a checkpoint
+      the chain published jails NOBODY -- not its signer, not anybody else -- unless that one
+      signature recovers, under a DIFFERENT message, to an address that validator registered
+      (explicit collision disjunct; for the signer itself this is [recover_binding_broken]). *)
+  Theorem published_signature_jails_nobody ops chain body est k c v :
+    genesis_safe g ops ->
+    In c (st_issued (run ops)) ->
+    newly_jailed (run ops) (step (run ops) (OEvidence chain body est (sign k c))) v ->
+    exists m' a, m' <> c /\ recover m' (sign k c) = Some a /\ In (chain, v, a) (st_reg (run ops)).
+  Proof.
+    intros G Hc Hj.
+    destruct (bad_sig_jails_registered_signer_of_unissued _ _ _ _ _ _ G Hj) as (tid & a & _ & Hni & _ & Hr & _ & Hin).
+    exists (cp tid body (eff_est est)), a. split; [|split; assumption].
+    intros E. apply Hni. now rewrite E.
   Qed.
 End Honest.
 
@@ -389,7 +496,7 @@ Definition ex_reissued : Z := ex_cp 7 42 21000.
     re-issued checkpoint, replayed as evidence, jails its signer although the binding is intact. *)
 Definition old_cfg : cfg :=
   {| c_build_archives := true; c_reissue_archives := false; c_rejects_archived := true; c_set_once := true;
-     c_queries_stored := true; c_confirm_recomputes := true |}.
+     c_queries_stored := true; c_confirm_recomputes := true; c_genesis_archives_live := true |}.
 
 Theorem honest_jailed_without_rearchive :
   let s := Evidence.run ex_cp ex_recover old_cfg ex_history in
@@ -427,7 +534,7 @@ Proof. cbv zeta. split; reflexivity. Qed.
     entered the archive; the validator that signs what it was given is jailed by the replay. *)
 Definition recomputing_queries_cfg : cfg :=
   {| c_build_archives := true; c_reissue_archives := true; c_rejects_archived := true; c_set_once := true;
-     c_queries_stored := false; c_confirm_recomputes := true |}.
+     c_queries_stored := false; c_confirm_recomputes := true; c_genesis_archives_live := true |}.
 
 Definition ex_redeploy_history : list (op (Z * Z)) :=
   [OSetTid 1 7; OSetReg [(1, 5, 210); (1, 6, 212)]; OBuild 1 1 42; OSetTid 1 8].
@@ -486,7 +593,7 @@ Section Verified.
   Lemma step_bts_inv s o : bts_inv s -> bts_inv (step s o).
   Proof.
     unfold bts_inv, Evidence.step. intros I.
-    destruct o as [key chain body|key est|key|chain tid|reg|v|chain body est sg|key]; cbn [Evidence.exec].
+    destruct o as [key chain body|key est|key|chain tid|reg|v|chain body est sg|key|]; cbn [Evidence.exec].
     - destruct (chain_tid (st_chains s) chain) as [tid|]; [|exact I].
       destruct (find_batch (st_batches s) key) as [b0|]; [exact I|].
       cbn. intros b [E|Hb]; [subst b; now exists tid | now apply I].
@@ -505,6 +612,7 @@ Section Verified.
       destruct (val_of_addr (st_reg s) chain a) as [v|]; [|exact I].
       destruct (memz v (st_jailed s)); exact I.
     - destruct (find_batch (st_batches s) key) as [b0|]; [|exact I]. exact I.
+    - exact I.
   Qed.
 
   Theorem stored_bts_is_a_checkpoint ops b :
@@ -542,3 +650,101 @@ Proof.
   split; [vm_compute; intuition discriminate|]. split; [vm_compute; intuition discriminate|].
   split; vm_compute; intuition discriminate.
 Qed.
+
+(** ** Chain restart from an exported genesis.  The PastEthSignatureCheckpoint set is not part of
+    skyway's GenesisState; the batch records are, BytesToSign included.  An InitGenesis that does
+    not archive what it imports starts the new chain instance showing, through every batch query,
+    bytes to sign that are not in its archive: the validator that signs them is jailed by the replay. *)
+Definition unarchiving_genesis_cfg : cfg :=
+  {| c_build_archives := true; c_reissue_archives := true; c_rejects_archived := true; c_set_once := true;
+     c_queries_stored := true; c_confirm_recomputes := true; c_genesis_archives_live := false |}.
+Definition archiving_genesis_cfg : cfg :=
+  {| c_build_archives := true; c_reissue_archives := true; c_rejects_archived := true; c_set_once := true;
+     c_queries_stored := true; c_confirm_recomputes := true; c_genesis_archives_live := true |}.
+
+Definition ex_genesis_history : list (op (Z * Z)) :=
+  [OSetTid 1 7; OSetReg [(1, 5, 210); (1, 6, 212)]; OBuild 1 1 42; OGenesis].
+
+Theorem honest_jailed_after_unarchiving_genesis :
+  let s := Evidence.run ex_cp ex_recover unarchiving_genesis_cfg ex_genesis_history in
+  served_bts ex_cp unarchiving_genesis_cfg s 1 = Some (ex_cp 7 42 300000) /\
+  confirm_checks_against ex_cp unarchiving_genesis_cfg s 1 = Some (ex_cp 7 42 300000) /\
+  In (ex_cp 7 42 300000) (st_issued s) /\ ~ In (ex_cp 7 42 300000) (st_archive s) /\
+  uses_only_key ex_addr s 1 5 5 /\
+  newly_jailed s (Evidence.step ex_cp ex_recover unarchiving_genesis_cfg s (OEvidence 1 42 0 (ex_sign 5 (ex_cp 7 42 300000)))) 5 /\
+  ~ recover_binding_broken ex_recover ex_sign ex_addr.
+Proof.
+  cbv zeta. split; [reflexivity|]. split; [reflexivity|]. split; [vm_compute; auto|]. split; [vm_compute; intuition discriminate|].
+  split.
+  - intros a H. vm_compute in H. destruct H as [H|[H|[]]]; inversion H; reflexivity.
+  - split; [|exact ex_binding_intact]. split; vm_compute; intuition discriminate.
+Qed.
+
+(** With an InitGenesis that archives the imported batches' BytesToSign the same replay is refused. *)
+Example replay_after_archiving_genesis_rejected :
+  let s := Evidence.run ex_cp ex_recover archiving_genesis_cfg ex_genesis_history in
+  Evidence.exec ex_cp ex_recover archiving_genesis_cfg s (OEvidence 1 42 0 (ex_sign 5 (ex_cp 7 42 300000))) = (s, RErrArchived).
+Proof. reflexivity. Qed.
+
+(** What no InitGenesis can repair without carrying the archive in the genesis state: a checkpoint
+    published by the previous instance for a batch that was retired (executed / cancelled / timed
+    out / re-estimated) before the export.  It is in [st_ever], not in the new instance's archive;
+    the genuine confirmation of it, replayed after the restart, jails its signer. *)
+Definition ex_retired_history : list (op (Z * Z)) :=
+  [OSetTid 1 7; OSetReg [(1, 5, 210); (1, 6, 212)]; OBuild 1 1 42; ORemove 1; OGenesis].
+
+Theorem retired_checkpoint_unprotected_after_genesis :
+  let s := Evidence.run ex_cp ex_recover archiving_genesis_cfg ex_retired_history in
+  In (ex_cp 7 42 300000) (st_ever s) /\ ~ In (ex_cp 7 42 300000) (st_issued s) /\ ~ In (ex_cp 7 42 300000) (st_archive s) /\
+  uses_only_key ex_addr s 1 5 5 /\
+  newly_jailed s (Evidence.step ex_cp ex_recover archiving_genesis_cfg s (OEvidence 1 42 0 (ex_sign 5 (ex_cp 7 42 300000)))) 5 /\
+  ~ recover_binding_broken ex_recover ex_sign ex_addr.
+Proof.
+  cbv zeta. split; [vm_compute; auto|]. split; [vm_compute; intuition|]. split; [vm_compute; intuition|].
+  split.
+  - intros a H. vm_compute in H. destruct H as [H|[H|[]]]; inversion H; reflexivity.
+  - split; [|exact ex_binding_intact]. split; vm_compute; intuition discriminate.
+Qed.
+
+(** Without a restart the two ghosts coincide: everything ever published is archived. *)
+Section Ever.
+  Context {Sig : Type}.
+  Variable cp : Z -> Z -> Z -> Z.
+  Variable recover : Z -> Sig -> option addr.
+  Variable g : cfg.
+
+  Lemma step_ever_eq s o : o <> OGenesis -> st_ever s = st_issued s ->
+    st_ever (Evidence.step cp recover g s o) = st_issued (Evidence.step cp recover g s o).
+  Proof.
+    intros NG E. unfold Evidence.step.
+    destruct o as [key chain body|key est|key|chain tid|reg|v|chain body est sg|key|]; cbn [Evidence.exec].
+    - destruct (chain_tid (st_chains s) chain) as [tid|]; [|exact E].
+      destruct (find_batch (st_batches s) key) as [b0|]; [exact E|]. cbn. now rewrite E.
+    - destruct (find_batch (st_batches s) key) as [b0|]; [|exact E].
+      destruct (c_set_once g && (0 <? b_est b0)); [exact E|].
+      destruct (chain_tid (st_chains s) (b_chain b0)) as [tid|]; [|exact E]. cbn. now rewrite E.
+    - destruct (find_batch (st_batches s) key) as [b0|]; [|exact E]. cbn. exact E.
+    - exact E.
+    - exact E.
+    - exact E.
+    - destruct (chain_tid (st_chains s) chain) as [tid|]; [|exact E].
+      destruct (c_rejects_archived g && memz _ (st_archive s)); [exact E|].
+      destruct (recover _ sg) as [a|]; [|exact E].
+      destruct (val_of_addr (st_reg s) chain a) as [v|]; [|exact E].
+      destruct (memz v (st_jailed s)); exact E.
+    - destruct (find_batch (st_batches s) key) as [b0|]; [|exact E]. cbn. now rewrite E.
+    - contradiction.
+  Qed.
+
+  Theorem ever_is_issued_without_genesis ops :
+    ~ In OGenesis ops -> st_ever (Evidence.run cp recover g ops) = st_issued (Evidence.run cp recover g ops).
+  Proof.
+    unfold Evidence.run, Evidence.run_from.
+    assert (G : forall s, ~ In OGenesis ops -> st_ever s = st_issued s ->
+                st_ever (fold_left (Evidence.step cp recover g) ops s) = st_issued (fold_left (Evidence.step cp recover g) ops s)).
+    { induction ops as [|o r IH]; intros s NG E; [exact E|]. cbn. apply IH.
+      - intros H. apply NG. now right.
+      - apply step_ever_eq; [|exact E]. intros X. apply NG. now left. }
+    intros NG. now apply G.
+  Qed.
+End Ever.
